@@ -596,7 +596,14 @@ class HierarchyElement(DiagLayer):
         # determine the set of applicable communication parameters
         cps = [cp for cp in self.comparam_refs if cp.short_name == cp_short_name]
         if protocol_name is not None:
-            cps = [cp for cp in cps if cp.protocol_snref in (None, protocol_name)]
+            # parameters which are specific to the requested protocol
+            # take precedence, the ones which do not specify a
+            # protocol are only used as fallback
+            specific_cps = [cp for cp in cps if cp.protocol_snref == protocol_name]
+            if specific_cps:
+                cps = specific_cps
+            else:
+                cps = [cp for cp in cps if cp.protocol_snref is None]
 
         if len(cps) > 1:
             warnings.warn(
